@@ -41,7 +41,7 @@ ANCHORS = [
     ('pjrpc/client/retry.py', 'retry'), ('pjrpc/client/retry.py', 'retry_async'),
 ]
 FLOORS = {'*': {'pair:dispatch-text': 3000, 'pair:dispatch-plain-vs-coroutine': 3000, 'pair:middleware': 500, 'pair:retry': 500,
-                'pair:notation': 300, 'pair:match': 300, 'retry:with-tracers': 200, 'retry:retried': 200,
+                'pair:notation': 300, 'pair:match': 300, 'retry:with-tracers': 200, 'retry:retried': 200, 'pair:trace': 300,
                 'middleware:failing-with-handlers': 100}}
 
 
@@ -202,6 +202,44 @@ def run_retry(ctx, spec, codes, excs, n_tracers, requests):
     ctx.ok('retry', cls, sample={'backoff': spec, 'requests': requests, 'sync_observation': obs[False][0]})
 
 
+def run_trace(ctx, n_tracers, attempts, script, kind, supplied_ctx):
+    """C19's scripted attempt outcomes (incl. BaseException and CancelledError raised by the transport) on both clients"""
+    obs = {}
+    for is_async in (False, True):
+        log = []
+        tracers = [c19.Rec(i, log) for i in range(n_tracers)]
+        sc = c19.Script(script, log)
+        from pjrpc.client import retry as retry_mod
+        strategy = retry_mod.RetryStrategy(backoff=retry_mod.PeriodicBackoff(attempts=attempts, interval=0.0), codes={2001},
+                                           exceptions=set(c19.RETRY_EXC)) if attempts is not None else None
+
+        def transport(text, is_notification, kwargs, sc=sc):
+            o, k = sc.outcome()
+            return sc.respond(o, k, text, is_notification)
+
+        cls_ = clientside.AsyncClient if is_async else clientside.SyncClient
+        client = cls_(transport, tracers=tracers, retry_strategy=strategy)
+        tctx = SimpleNamespace(tag='caller') if supplied_ctx else None
+        if kind == 'batch':
+            req = v20.BatchRequest(v20.Request('a', [1], id=1), v20.Request('b', [2], id=2))
+            st, out = clientside.outcome_of(lambda: client.batch.send(req, _trace_ctx=tctx), is_async)
+        else:
+            req = v20.Request('m', [1], id=None if kind == 'notification' else 5)
+            st, out = clientside.outcome_of(lambda: client.send(req, _trace_ctx=tctx), is_async)
+        events = [('transport', e[1]) if e[0] == 'transport' else (e[0], e[1], type(e[4]).__name__, e[2] is tctx if supplied_ctx else None)
+                  for e in log]
+        obs[is_async] = {'events': events, 'outcome': norm_out(st, out)}
+    ctx.hit('pair:trace')
+    cls = (n_tracers, attempts, tuple(script), kind, supplied_ctx)
+    for aspect in ('events', 'outcome'):
+        if obs[False][aspect] != obs[True][aspect]:
+            ctx.violation(f'client-halves-differ:{"tracer-events" if aspect == "events" else "outcome"}:scripted-attempts', 'trace', cls,
+                          tracers=n_tracers, retry_attempts=attempts, script=script, kind=kind, sync=obs[False][aspect],
+                          asynchronous=obs[True][aspect])
+            return
+    ctx.ok('trace', cls, sample={'script': script, 'kind': kind, 'tracers': n_tracers, 'events': obs[False]['events']})
+
+
 def run_notation(ctx, calls, notation, strict, base):
     obs = {}
     error_cls = c07.CustomBase if base == 'custom' else JsonRpcError
@@ -308,6 +346,16 @@ def gen(ctx):
                 reqs.append({'kind': 'single', 'source': source, 'script': list(rng.choice(scripts))})
             yield 'retry', dict(spec=spec, codes=('one', 'several', 'none', 'one')[k % 4], excs=('one', 'several', 'one', 'empty')[(k // 3) % 4],
                                 n_tracers=k % 3, requests=reqs)
+    # scripted attempt outcomes incl. BaseException subclasses and CancelledError raised by the transport
+    outs = [o for o in c19.OUTCOMES if o != 'cancel-task']
+    for attempts in (None, 0, 1, 2):
+        n = attempts or 0
+        scripts = list(itertools.product(outs, repeat=n + 1)) if n <= 1 else \
+            [tuple(rng.choice(outs) for _ in range(n + 1)) for _ in range(3000 if deep else 300)]
+        for script in scripts:
+            k += 1
+            yield 'trace', dict(n_tracers=1 + k % 3, attempts=attempts, script=list(script),
+                                kind=('single', 'batch', 'notification')[k % 3], supplied_ctx=bool(k % 2))
     # notations over the loop-back world
     pool = c07.call_pool(rng, False)
     positional = [c for c in pool if c[1] == 'args']
@@ -334,4 +382,4 @@ def gen(ctx):
                                     ids=args.get('ids', 'one'))
 
 
-KINDS = {'text': run_text, 'mw': run_mw, 'retry': run_retry, 'notation': run_notation, 'match': run_match}
+KINDS = {'text': run_text, 'mw': run_mw, 'retry': run_retry, 'notation': run_notation, 'match': run_match, 'trace': run_trace}
